@@ -216,7 +216,7 @@ def kani_env():
     env.pop('CARGO_TARGET_DIR', None)
     return env
 
-def run_kani(shard, crate, harnesses, logdir, jobs=1, playback=True, extra_args=()):
+def run_kani(shard, crate, harnesses, logdir, jobs=1, playback=True, extra_args=(), memkb=None):
     """One `cargo kani` invocation for several harnesses of one crate.  Returns the path of
     the combined log.  Per-harness wall cap via --harness-timeout; the whole invocation is
     additionally bounded by `timeout` and an address-space limit."""
@@ -233,7 +233,7 @@ def run_kani(shard, crate, harnesses, logdir, jobs=1, playback=True, extra_args=
     for h in harnesses:
         cmd += ['--harness', 'verif_kani_%s::%s' % (h.mod.module, h.name)]
     cmd += list(extra_args)
-    memkb = os.environ.get('VERIF_MEM_KB', str(24 * 1024 * 1024))
+    memkb = os.environ.get('VERIF_MEM_KB') or str(memkb or 24 * 1024 * 1024)
     sh = 'ulimit -v %s; exec timeout -k 10 %d %s' % (memkb, total, ' '.join(shlex.quote(c) for c in cmd))
     t0 = time.time()
     with open(log, 'w') as f:
